@@ -4,9 +4,9 @@ CONSTANTS
   ActiveThreshold = 5
   GroupThreshold = 4
   ClientQuorum = 5
-  MemberLists <- ListsSmall
+  MemberLists <- ListsTwo
   Envs <- AllEnvs
   AdvKinds <- AllAdv
   MaxAdversarial = 1
   StrictVerify = TRUE
-INVARIANTS Emit TypeOK
+INVARIANTS Emit TypeOK StaticRulesHold MembersHashMatches SignaturesRecover GroupMembersMatch ValidWheneverSubmitted GateImpliesThresholds NoSubmissionBelowQuorum OwnSignatureIncluded WalletMatches HonestAccepted
